@@ -8,8 +8,6 @@ from __future__ import annotations
 
 import json
 import time
-from typing import Any
-
 from harness import common
 from harness.common import Ctx, Disagreement, Failure
 from harness import packrig as pr
@@ -25,6 +23,8 @@ ASSUMPTIONS = [
     'families exercised: IPv4/IPv6 unicast and multicast (INET NLRIs, with and without ADD-PATH); labelled/VPN/flow/EVPN NLRIs reach the same loops with other sizes and are not generated',
     'every IPv4 announce of a collection has the next hop of the NEXT_HOP attribute of that collection (as the RIB builds them: grouping is by attribute set); no Empty NLRI; no IPv4 NLRI with an IPv6 next hop (RFC 8950 not negotiated)',
     'no link-local next-hop capability: the MP next hop is the 4 or 16 address bytes',
+    'a request is a SET of routes: a prefix (with its path id) is requested at most once per AFI in the announces and at most once in the withdraws of a collection',
+    'ADD-PATH is not generated together with ipv4 multicast (on the unchanged tree that would only show finding family-changed a second way)',
 ]
 
 V4_MASKS = [0, 1, 7, 8, 9, 15, 16, 17, 23, 24, 25, 31, 32]
@@ -127,6 +127,8 @@ def gen_case(rng, tier: str, big_ok: bool) -> dict:
         tot = sum(split) or 1
         for f, s in zip(afams, split):
             wds += gen_nlris(rng, f, int(round(nw * s / tot)), neg.addpath.send(*pr.FAMS[f]), seen, bias)
+    if anns and rng.random() < 0.06:  # odd request: a prefix both announced and withdrawn in one collection
+        wds.append(list(rng.choice(anns)[:4]))
     rng.shuffle(anns)
     rng.shuffle(wds)
     return {'fams': fams, 'addpath': addpath, 'M': M, 'ibgp': ibgp, 'attr': attr, 'anns': anns, 'wds': wds, 'iw': int(rng.random() < 0.85), 'regime': regime}
@@ -314,6 +316,15 @@ def run(ctx: Ctx) -> None:
                         ctx.disagreements.append(Disagreement('pack', {'case': brief(case), 'line': res['line'][:600]}, [mo['status']] + mo['canon'][:6], [res['status']] + res['canon'][:6]))
         pending.clear()
 
+    # the driver refuses what it cannot parse (never defaults)
+    if ctx.driver_ok:
+        bad_lines = ['pack run', 'pack run 4096 10 0 1 1 - 1 1:2:1:1:1 -', 'pack run 4096 10 0 1 1 - 2 - -', 'pack run x 10 0 1 1 - 1 - -',
+                     'pack run 4096 10 0 1 1 - 1 1:2:1:2:1:4 -', 'pack run 4096 10 0 1 1 - 1 1:2:1:1:1:4', 'pack walk 1', 'pack witness other', 'rib tick']
+        for line, o in zip(bad_lines, common.run_driver('drv_pack', bad_lines)):
+            ctx.count('malformed-line')
+            if o != 'bad-op':
+                ctx.disagreements.append(Disagreement('pack-line-protocol', {'line': line}, o, 'bad-op'))
+
     i = 0
     while True:
         if i < len(cases):
@@ -356,6 +367,18 @@ def run(ctx: Ctx) -> None:
         pending.append((case, res, origin, entry))
         if len(pending) >= 100:
             flush()
+        # c09_partial says: a collection of one kind (as the RIB builds them) whose NLRIs all fit alone is packed
+        # without any failure. Checked here on the implementation, with the oracle's own notion of "fits".
+        neg_f = set(case['fams'])
+        v4n = [x for x in case['anns'] + (case['wds'] if case['iw'] else []) if x[0] in neg_f and x[0] in (1, 2)]
+        mpa = [x for x in case['anns'] if x[0] in neg_f and x[0] in (3, 4)]
+        mpw = [x for x in case['wds'] if x[0] in neg_f and x[0] in (3, 4)] if case['iw'] else []
+        rib_shaped = (not mpa and not mpw) or (not v4n and (not mpa or not mpw))
+        if rib_shaped and res['all_fit'] and (v4n or mpa or mpw):
+            ctx.count('rib-shaped-and-every-nlri-fits')
+            unexpected = [c for c in canons if c[0] != 'family-changed']
+            if unexpected or res['status'] != 'ok':
+                ctx.disagreements.append(Disagreement('theorem-c09_partial-vs-implementation', {'case': brief(case)}, 'status ok, no oracle failure', [res['status']] + unexpected))
         for canon in canons:
             key = json.dumps(canon)
             ctx.count('oracle-fail:' + '/'.join(map(str, canon)))
